@@ -343,3 +343,46 @@ def make_sequence_frames(rng, count, hostile=False):
         out.append({'frame': f, 'content': bytes(history), 'params': {'wlog': wlog}, 'cls': 'synthetic-seq',
                     'producer': 'synthetic', 'oversized': oversized, 'over128k': over128k, 'features': sorted(feats)})
     return out
+
+
+def make_rle_repeat_frames(rng, count):
+    """frames of the shape [raw block][compressed block: one kind in RLE mode][compressed block: that kind in repeat
+    mode]: the third block is only decodable with the RLE symbol left by the second"""
+    out = []
+    for _ in range(count):
+        kind = rng.choice(['of', 'of', 'll', 'ml'])
+        wlog = rng.choice([12, 17])
+        history = bytearray(rng.bytes(rng.choice([600, 2000])))
+        body = block_header(0, 0, len(history)) + bytes(history)
+        rep = [1, 4, 8]
+        state = {'ll': Tbl(), 'ml': Tbl(), 'of': Tbl()}
+        c = rng.range(5, 8)                        # offset code shared by all sequences
+        fixed_ll = rng.choice([0, 3, 20])          # single literal-length / match-length codes
+        fixed_ml = rng.choice([3, 7, 40])
+        ok = True
+        for bi, mode in enumerate(['rle', 'repeat']):
+            seqs, lits = [], bytearray()
+            for k in range(rng.range(1, 6)):
+                ll = fixed_ll if kind == 'll' else rng.choice([1, 2, 5])
+                ml = fixed_ml if kind == 'ml' else rng.choice([3, 4, 9])
+                ov = (1 << c) + rng.below(1 << c) if kind == 'of' else 3 + rng.range(1, 400)
+                lits += rng.bytes(ll)
+                seqs.append((ll, ml, ov))
+            modes = {'ll': 'predef', 'ml': 'predef', 'of': 'predef'}
+            modes[kind] = mode
+            new_hist = apply_sequences(bytearray(history), bytes(lits), seqs, rep)
+            if new_hist is None:
+                ok = False
+                break
+            blk = compressed_block(bytes(lits), 'raw', seqs, modes, state, 1 if bi == 1 else 0)
+            if blk is None:
+                ok = False
+                break
+            body += blk
+            history = new_hist
+        if not ok:
+            continue
+        f = frame_header_bytes(window_log=wlog, fcs=None, checksum=0) + body
+        out.append({'frame': f, 'content': bytes(history), 'params': {'wlog': wlog, 'kind': kind}, 'cls': 'synthetic-rle-repeat',
+                    'producer': 'synthetic', 'oversized': False, 'over128k': False, 'features': ['%s-mode:rle' % kind, '%s-mode:repeat' % kind]})
+    return out
